@@ -133,15 +133,30 @@ func (e *Engine) lockHeld(prop string) []*Oblig {
 		}
 		// unexported helpers that access guarded fields without locking: checked at their call sites
 		helperNeeds := map[*ssa.Function]bool{} // fn -> needs write lock
+		// "guarded_by mu: *" stands for every field of the struct except the mutex itself, including
+		// fields added later (a scratch buffer written under the read lock is a data race)
+		guard := map[string]string{}
+		for g, mu := range ts.Guarded {
+			if g != "*" {
+				guard[g] = mu
+			}
+		}
+		if mu, all := ts.Guarded["*"]; all {
+			for i := 0; i < st.NumFields(); i++ {
+				if n := st.Field(i).Name(); n != mu {
+					guard[n] = mu
+				}
+			}
+		}
 		var gnames []string
-		for g := range ts.Guarded {
+		for g := range guard {
 			gnames = append(gnames, g)
 		}
 		sort.Strings(gnames)
 		for _, fn := range e.repoFunctions() {
 			for _, g := range gnames {
 				gi := fieldIdx(g)
-				mi := fieldIdx(ts.Guarded[g])
+				mi := fieldIdx(guard[g])
 				if gi < 0 || mi < 0 {
 					problems = append(problems, "unknown field in guarded_by: "+g)
 					continue
@@ -177,7 +192,7 @@ func (e *Engine) lockHeld(prop string) []*Oblig {
 						if w {
 							kind = "write"
 						}
-						problems = append(problems, fmt.Sprintf("%s: %s of guarded field %s in %s without holding %s (with a deferred unlock)", e.pos(ins), kind, g, fn.Name(), ts.Guarded[g]))
+						problems = append(problems, fmt.Sprintf("%s: %s of guarded field %s in %s without holding %s (with a deferred unlock)", e.pos(ins), kind, g, fn.Name(), guard[g]))
 					}
 				}
 			}
@@ -186,7 +201,7 @@ func (e *Engine) lockHeld(prop string) []*Oblig {
 		for h, needW := range helperNeeds {
 			callers := 0
 			for _, fn := range e.repoFunctions() {
-				mi := fieldIdx(ts.Guarded[gnames[0]])
+				mi := fieldIdx(guard[gnames[0]])
 				calls := mutexCalls(fn, t, mi)
 				for _, b := range fn.Blocks {
 					for _, ins := range b.Instrs {
